@@ -141,6 +141,38 @@ fn main() {
                 }
                 std::process::exit(1);
             }
+            // third history: the fault hits a DELETION. FOO_BAR is compiled, Bar is removed from the
+            // sources, and the directory Query/Bar that the incremental plan has to delete has been
+            // replaced by a FILE (remove_dir_all fails with ENOTDIR). Compiles are repeated until one
+            // succeeds (at most 3); then the directory must equal a fresh compile of the sources.
+            setup(&root, FOO_BAR);
+            let config = create_config(&root.join("isograph.config.json"), cwd);
+            let mut state = CompilerState::<P>::new(config, cwd).map_err(|e| e.0).expect("state");
+            compile::<P>(&mut state).map_err(|e| format!("{e:?}")).expect("first compile");
+            state.db.insert_iso_literal(rel, FOO.to_string());
+            let bar_dir = root.join("src/__isograph/Query/Bar");
+            fs::remove_dir_all(&bar_dir).unwrap();
+            fs::write(&bar_dir, "a file where the directory was").unwrap();
+            let mut ok = false;
+            for attempt in 1..=3 {
+                let r = compile::<P>(&mut state);
+                println!("history 3, compile #{attempt} (Query/Bar replaced by a file): {}", if r.is_ok() { "ok" } else { "failed" });
+                if r.is_ok() { ok = true; break; }
+            }
+            if !ok { println!("NOT REPAIRED: no compile succeeds after the fault"); std::process::exit(1); }
+            setup(&root2, FOO);
+            let config4 = create_config(&root2.join("isograph.config.json"), cwd2);
+            let mut fresh3 = CompilerState::<P>::new(config4, cwd2).map_err(|e| e.0).expect("state");
+            compile::<P>(&mut fresh3).map_err(|e| format!("{e:?}")).expect("fresh compile");
+            // (entries of any kind: the obstacle is a file directly below Query/)
+            let entries = |r: &Path| { let mut v: Vec<String> = vec![]; fn walk(b: &Path, d: &Path, v: &mut Vec<String>) { if let Ok(rd) = fs::read_dir(d) { for e in rd.flatten() { let p = e.path(); v.push(p.strip_prefix(b).unwrap().display().to_string()); if p.is_dir() { walk(b, &p, v) } } } } walk(&r.join("src/__isograph"), &r.join("src/__isograph"), &mut v); v.sort(); v };
+            let (got, want) = (entries(&root), entries(&root2));
+            if got != want {
+                for n in &got { if !want.contains(n) { println!("NOT REPAIRED: stale entry {n} although the last compile succeeded"); } }
+                for n in &want { if !got.contains(n) { println!("NOT REPAIRED: {n} is missing although the last compile succeeded"); } }
+                std::process::exit(1);
+            }
+            println!("history 3: directory equals a fresh compile");
         }
         "custom" => {
             // compile_fs custom <dir> <schema file> <literals file>: exit 0 iff the project compiles
